@@ -48,6 +48,10 @@ CHECKS = {
  "C15": dict(tech="property-based testing (proptest): DHW grammar with closed-form oracle, error-class parity and metamorphic invariances",
              text="A dedicated grammar builds DHW supply mixes (direct electric, heat pump incl. low-SCOP exclusion, solar thermal, RED1/RED2 with user factors, fossil boiler, biomass with/without SALIDA) with consistent, absent or zero demand, shared PV, auxiliaries, other services and nEPB uses; the reported fraction must match the f64 closed form, lie in [0,1], report the documented errors (and error_acs in misc) in the non-computable classes, and be invariant under added nEPB lines, added non-electric lines of other services, another k_exp and scaling by 2^k (also with cogeneration present). Exploration.",
              note="Closed form validated against the library on >100k cases; tolerance 1e-4 plus f32 noise term proportional to DHW inputs / demand.", ref="4/C15"),
+
+ "C19": dict(tech="property-based testing (proptest) driving the real cteepbd binary out of process, oracle = precedence model of the statement",
+             text="Each generated case is one run of /repo's cteepbd binary with, independently for area, k_exp, location, RED1, RED2, the option absent/valid/invalid and the metadata absent/valid/invalid (boundaries, out-of-range, non-numeric, empty), factor source none / -l / -f incl. the -f/-l conflict. Checked: exit status (0/1/64/65), the three echo lines with origin and value, --json k_exp/arearef/wfactors, --oc metadata, C_ep of the report against an in-process evaluation with the effective parameters, and no report / result files on refusal. Exploration over the configuration matrix.",
+             note="Corners on which the statement is silent accept both behaviours (listed in evidence assumptions); debug build of the CLI.", ref="4/C19"),
 }
 PENDING = {}
 TITLES = {}
